@@ -69,6 +69,14 @@ func tsaGetWorld() *tsaWorld {
 		badInter("intermediate-not-a-ca", func(t *pki.Tmpl) { t.CA = false; t.BCLeafFalse = true })
 		w.pool = x509.NewCertPool()
 		w.pool.AddCert(w.root.X)
+		// a *trusted* root that is a CA but lacks the key usage extension (path building tolerates it; only the library's own validation objects)
+		rt := pki.RootTmpl("tsa root without key usage")
+		rt.KUAbsent = true
+		badRoot := pki.Issue(rt, pki.K("p256-c"), nil, nil)
+		w.pool.AddCert(badRoot.X)
+		w.variants["root-without-key-usage(chain 2)"] = []*pki.Cert{pki.Issue(pki.TSALeafTmpl("tsa leaf under ku-less root"), pki.K("p256-f"), badRoot, nil), badRoot}
+		in3 := pki.Issue(pki.CATmpl("tsa inter under ku-less root"), pki.K("p384-b"), badRoot, nil)
+		w.variants["root-without-key-usage(chain 3)"] = []*pki.Cert{pki.Issue(pki.TSALeafTmpl("tsa leaf under ku-less root 3"), pki.K("p256-g"), in3, nil), in3, badRoot}
 		tsaW = w
 	})
 	return tsaW
@@ -135,7 +143,7 @@ func tsaBehaviours() []tsaBehaviour {
 	token("message-digest-attribute-mismatch", false, 0, func(w *tsaWorld) pki.TSASpec { s := std2(w); s.WrongMsgDigest = true; return s })
 	token("no-certificates-in-token", false, 0, func(w *tsaWorld) pki.TSASpec { s := std2(w); s.Embed = nil; return s })
 	for _, v := range []string{"leaf-eku-not-critical", "leaf-extra-eku", "leaf-is-ca", "leaf-extra-key-usage-bit", "leaf-without-key-usage", "leaf-without-timestamping-eku",
-		"intermediate-without-certsign", "intermediate-without-key-usage", "intermediate-not-a-ca"} {
+		"intermediate-without-certsign", "intermediate-without-key-usage", "intermediate-not-a-ca", "root-without-key-usage(chain 2)", "root-without-key-usage(chain 3)"} {
 		v := v
 		token("tsa-"+v, false, 0, func(w *tsaWorld) pki.TSASpec { ch := w.variants[v]; return pki.TSASpec{Signer: ch[0], Embed: ch} })
 	}
@@ -194,6 +202,7 @@ func c15Scenarios(tier mc.Tier) []mc.Scenario {
 func c15Body(c *mc.Ctx, media, scheme, keyName string) {
 	w := tsaGetWorld()
 	useTS := c.ChooseFree("timestamper", 2) == 0 // 0 = set, 1 = nil
+	derive := c.ChooseFree("request-derived-with-WithContext", 2) == 1
 	bi := 0
 	if useTS && scheme == envenc.SchemeX509 {
 		bi = c.ChooseFree("tsa-behaviour", len(c15Behaviours))
@@ -294,6 +303,10 @@ func c15Body(c *mc.Ctx, media, scheme, keyName string) {
 		}
 	}
 	c.Statef("timestamping=%v behaviourValid=%v validator=%d vector=%v => success=%v", timestamping, b.valid, vmode, vec, want)
+	if derive {
+		// the request handed to Sign is a copy made by WithContext: every field must survive the copy
+		req = req.WithContext(context.WithValue(context.Background(), callerKey{}, 1))
+	}
 	env, serr, pan := doSign(media, req)
 	c.Tracef("%s %s key=%s timestamper=%v behaviour=%s validator-mode=%d vector=%v -> err=%v bytes=%d", media, scheme, keyName, useTS, b.name, vmode, vec, serr, len(env))
 	if timestamping {
